@@ -8,7 +8,8 @@ usage: c13_sites.py <repo> <outdir>
 * hash_iteration_sites: (file, enclosing fn, text) for every `for .. in <hash>`, `<hash>.iter() / .into_iter() /
   .keys() / .values() / .drain() / .retain() / ...`, `.extend(<hash>)` in FILES, where <hash> is a local / parameter /
   closure parameter whose annotation or initialiser is a HashMap / HashSet (shadowing `let`s are followed), a struct
-  field declared with such a type (accessed as `x.field`), or the result of a fn declared to return one.  When the
+  field declared with such a type (accessed as `x.field`), a name bound by a pattern of a known hash-carrying enum variant
+  (HASH_VARIANTS), or the result of a fn declared to return one.  When the
   iteration is collected into a `let` and the NEXT statement sorts that variable, the sort is part of the text: removing
   it changes the generated list.
 * concurrency_sites: every join_all / join! / try_join* / buffered / buffer_unordered / FuturesUnordered / FuturesOrdered /
@@ -32,6 +33,8 @@ COMBINATORS = ["join_all", "try_join_all", "join!", "try_join!", "join", "try_jo
                "FuturesOrdered", "select_all", "select_ok", "select!", "select_biased!", "for_each_concurrent",
                "try_for_each_concurrent", "spawn", "spawn_blocking", "JoinSet", "block_on"]
 HASH_TY = r"(?:std::collections::)?Hash(?:Map|Set)\b"
+# enum variants (declared outside the scanned files) whose payload is a hash container: a name bound by such a pattern is one
+HASH_VARIANTS = ["MinidumpContextValidity::Some"]
 
 
 def die(msg):
@@ -245,6 +248,10 @@ def scan_file(path, label, all_fields, all_hash_fns):
     for m in re.finditer(r"\b(\w+)\s*:\s*&?\s*(?:'\w+\s+)?(?:mut\s+)?(?:Cow<\s*(?:'\w+\s*,\s*)?)?" + HASH_TY + r"\s*<", s):
         if not sc.in_struct(m.start()) and not s[:m.start()].rstrip().endswith("let") and not re.search(r"\blet\s+(mut\s+)?$", s[:m.start()]):
             events.append((m.start(), "bind", m.group(1), True))
+    for v in HASH_VARIANTS:
+        for m in re.finditer(re.escape(v) + r"\(\s*(?:ref\s+)?(?:mut\s+)?(\w+)\s*\)", s):
+            if m.group(1) != "_":
+                events.append((m.end(), "bind", m.group(1), True))
     for m in re.finditer(r"\blet\s+(?:mut\s+)?(\w+)\s*(:[^=;]+)?=(?!=)", s):
         name, ann = m.group(1), m.group(2)
         e = stmt_end(s, m.end())
